@@ -20,6 +20,7 @@ package basepathfs
 import (
 	"io/fs"
 	"os"
+	"strings"
 	"time"
 
 	"github.com/avfs/avfs"
@@ -189,8 +190,18 @@ func (vfs *BasePathFS) FromSlash(path string) string {
 // Getwd may return any one of them.
 func (vfs *BasePathFS) Getwd() (dir string, err error) {
 	dir, err = vfs.baseFS.Getwd()
+	if err != nil {
+		return "", vfs.FromPathError(err)
+	}
 
-	return vfs.FromBasePath(dir), vfs.FromPathError(err)
+	sep := string(vfs.PathSeparator())
+	if dir != vfs.basePath && !strings.HasPrefix(dir, strings.TrimSuffix(vfs.basePath, sep)+sep) {
+		// The current directory of the base file system is outside the base path
+		// (no Chdir has been made yet for example) : it is seen as the root.
+		return vfs.basePath[:avfs.VolumeNameLen(vfs, vfs.basePath)] + sep, nil
+	}
+
+	return vfs.FromBasePath(dir), nil
 }
 
 // Glob returns the names of all files matching pattern or nil
